@@ -73,7 +73,7 @@ class RuleOk:
 
 
 class Model:
-    def __init__(self, g: Grammar, types=None, step_cap=200000):
+    def __init__(self, g: Grammar, types=None, step_cap=20000):
         self.g = g
         self.types = types or check_types(g)
         self.rules = {r.name: r for r in g.rules}
